@@ -45,7 +45,8 @@ def sound_backend(ex, cache, meth, args, kwargs):
         if ex.fork(z3.Bool(f"{ex.tag}!hit{ex.n}")):
             # INV + soundness corollary: a stored value is the memo-free value for these options
             ex.assume(T.EVok(et, ot))
-            ex.tags.append(("cache-hit",))
+            computed = any(e[0] == "call" and e[1] == "evaluate" and e[2].eq(et) for e in ex.trace)
+            ex.tags.append(("cache-hit", "after-compute" if computed else "first"))
             return Sym("val", T.EVval(et, ot))
         ci = ex.repo.find_class("CacheGetFailure")
         ex.do_raise(ex.new_obj(ci, [e, o, cache], {}))
